@@ -569,6 +569,18 @@ func collectNameAgreement(pk *packages.Package) (checked int, bad []nameMismatch
 							val = call.Args[0]
 						}
 					}
+					// …or dereferenced / parenthesised: *x.f, (x.f)
+					for {
+						if st, isStar := val.(*ast.StarExpr); isStar {
+							val = st.X
+							continue
+						}
+						if pe, isParen := val.(*ast.ParenExpr); isParen {
+							val = pe.X
+							continue
+						}
+						break
+					}
 					se, ok := val.(*ast.SelectorExpr)
 					if !ok {
 						continue
